@@ -47,7 +47,7 @@ def sign_to_exp(s):
     return {(1, 0): 0, (0, 1): 1, (-1, 0): 2, (0, -1): 3}[(int(round(s.real)), int(round(s.imag)))]
 
 
-from .c09 import guarded, canon   # rejections are one token `rejected` whatever the exception class; nothing propagates
+from .c09 import guarded, canon, REJECTION   # rejections are one token `rejected` whatever the exception class; nothing propagates
 
 
 def safe_impl_op(op):
@@ -125,13 +125,14 @@ def impl_op(op):
             r = quad(p)
             if not np.array_equal(a, snap):
                 return 'from_F2 modified its argument'
-            # the constructor must reject what the documentation excludes: non-uint8 dtype, 2-d arrays
-            for bad in (a.astype(np.int64), a[None, :]):
-                try:
-                    P.from_F2(bad)
-                    return f'from_F2 accepted dtype {bad.dtype} ndim {bad.ndim}'
-                except AssertionError:
-                    pass
+            # an int64 array with the same 0/1 values: the current constructor rejects it (assert uint8); a constructor that accepts
+            # it is fine as long as it builds the same operator
+            try:
+                r2 = quad(P.from_F2(a.astype(np.int64)))
+            except REJECTION:
+                r2 = r
+            if r2 != r:
+                return f'from_F2 accepts an int64 array with a different operator: {r2}'
             return r
         return guarded(f)
     if k == 'pstr':
@@ -146,11 +147,11 @@ def impl_op(op):
         def f():
             n = int(t[2])
             if t[3] == 'str':
-                r = G.get_pauli_group(n, kind='str')
-                return '|'.join(r) if isinstance(r, tuple) else f'type {type(r).__name__}'
+                r = G.get_pauli_group(n, kind='str')      # any sequence of strings (tuple today)
+                return '|'.join(str(x) for x in list(r))
             if t[3] == 'str_to_index':
                 r = G.get_pauli_group(n, kind='str_to_index')
-                return '|'.join(f'{a}:{int(b)}' for a, b in r.items())
+                return '|'.join(f'{a}:{int(b)}' for a, b in dict(r).items())
             if t[3] == 'numpy':
                 r = G.get_pauli_group(n)                       # default kind
                 r2 = G.get_pauli_group(n, kind='numpy')
@@ -387,6 +388,13 @@ def probe(ctx):
                     ctx.fail('commutation', f'commutate_with wrong for {bits(a.F2)},{bits(b.F2)}', dict(op='comm', n=n, a=bits(a.F2), b=bits(b.F2)))
                 else:
                     ctx.probe_ok()
+    # wrapper rows (from_index / from_str / from_F2 / __len__ / __str__ / get_pauli_group / with_sign=False): model-independent oracles
+    for n in (1, 2):
+        wrapper_oracles(ctx, n, f2s=list(all_f2(n)))
+    wrapper_oracles(ctx, 3, idxs=rng.sample(range(64), 16), f2s=[''.join(rng.choice('01') for _ in range(8)) for _ in range(16)])
+    for _ in range(20 if ctx.quick() else 200):
+        n = rng.randint(4, 12)
+        wrapper_oracles(ctx, n, idxs=[rng.randrange(4 ** n)], f2s=[''.join(rng.choice('01') for _ in range(2 * n + 2))], group=False)
     # random generator honours the Hermiticity request
     for seed in range(60 if ctx.quick() else 600):
         n = 1 + seed % 5
@@ -478,6 +486,106 @@ def probe(ctx):
             ctx.probe_ok(('mmr', bits(a.F2), bits(b.F2)))
 
 
+_KRON = None
+
+
+def kron_of(letters):
+    """dense matrix of a Pauli string, built from the harness's own 2x2 matrices"""
+    M = {'I': np.eye(2), 'X': np.array([[0, 1], [1, 0]]), 'Y': np.array([[0, -1j], [1j, 0]]), 'Z': np.diag([1.0, -1.0])}
+    out = np.eye(1)
+    for c in letters:
+        out = np.kron(out, M[c])
+    return out
+
+
+def wrapper_oracles(ctx, n, idxs=None, f2s=None, group=True):
+    """model-independent oracles for the wrapper rows: from_index / from_str / from_F2 / __len__ / __str__ / get_pauli_group and the
+    with_sign=False paths, each against the already-covered conversions and against dense matrices built here"""
+    import re as _re
+    import numqi
+    P = numqi.gate.PauliOperator
+    G = numqi.gate
+    idxs = list(range(4 ** n)) if idxs is None else list(idxs)
+    def letters_of(i):
+        return ''.join('IXYZ'[(i >> (2 * (n - 1 - j))) & 3] for j in range(n))
+    for i in idxs:
+        s1 = letters_of(i)
+        rp = dict(op='wrapper', n=n, index=int(i), string=s1)
+        def f_index():
+            p = P.from_index(i, n)
+            F = G.pauli_index_to_F2(i, n, with_sign=True)
+            return (np.array_equal(p.F2, F), int(G.pauli_F2_to_index(p.F2, with_sign=True)) == i, len(p) == n, p.str_ == s1, sign_to_exp(p.sign) == 0,
+                    n > 3 or np.array_equal(p.full_matrix, kron_of(s1)))
+        r = guarded(f_index)
+        if r != (True,) * 6:
+            ctx.fail('from_index', f'PauliOperator.from_index({i}, {n}) [{s1}]: (F2 = pauli_index_to_F2, index round trip, len, letters, sign +1, dense matrix) = {r}', rp)
+        else:
+            ctx.probe_ok(('from_index', n, int(i)))
+        def f_str():
+            out = []
+            for e in range(4):
+                p = P.from_str(s1, PH[e])
+                out.append(p.str_ == s1 and sign_to_exp(p.sign) == e and len(p) == n and (n > 3 or np.allclose(p.full_matrix, PH[e] * kron_of(s1), atol=0)))
+            p0 = P.from_str(s1)
+            out.append(sign_to_exp(p0.sign) == 0 and np.array_equal(p0.F2, G.pauli_str_to_F2(s1, 1)))
+            return tuple(out)
+        r = guarded(f_str)
+        if r != (True,) * 5:
+            ctx.fail('from_str', f'PauliOperator.from_str({s1!r}, sign): (sign 1, i, -1, -i recovered; default sign = +1) = {r}', rp)
+        else:
+            ctx.probe_ok(('from_str', n, int(i)))
+        def f_ns():
+            a = G.pauli_index_to_F2(i, n, with_sign=False)
+            b = G.pauli_index_to_F2(i, n, with_sign=True)
+            return (np.array_equal(a, b[2:]), a.shape == (2 * n,), int(G.pauli_F2_to_index(a, with_sign=False)) == i)
+        r = guarded(f_ns)
+        if r != (True,) * 3:
+            ctx.fail('with_sign_false', f'index {i} (n={n}, {s1}): (F2 without sign = F2[2:], length 2n, index round trip) = {r}', rp)
+        else:
+            ctx.probe_ok(('nosign', n, int(i)))
+    for a in ([] if f2s is None else f2s):
+        rp = dict(op='wrapper', n=n, F2=a)
+        def f_f2():
+            arr = f2arr(a)
+            p = P.from_F2(arr)
+            s = str(p)
+            m = _re.fullmatch(r'(-i|i|-|)([IXYZ]*) \[([01,]*)\]', s)
+            if m is None:
+                return f'str(p) = {s!r} does not parse'
+            e = {'': 0, 'i': 1, '-': 2, '-i': 3}[m.group(1)]
+            dense = n > 3 or np.allclose(p.full_matrix, PH[e] * kron_of(m.group(2)), atol=0)
+            return (len(p) == len(arr) // 2 - 1, np.array_equal(p.F2, arr), m.group(2) == p.str_, m.group(3).replace(',', '') == a,
+                    e == sign_to_exp(p.sign), dense, repr(p) == s)
+        r = guarded(f_f2)
+        if r != (True,) * 7:
+            ctx.fail('__str__/__len__', f'PauliOperator.from_F2({a}): (len = len(a)/2-1, F2 kept, letters, bit list, printed prefix = sign, prefix*kron(letters) = full_matrix, repr = str) = {r}', rp)
+        else:
+            ctx.probe_ok(('str', n, a))
+    if group and n <= 3:
+        rp = dict(op='wrapper', n=n, what='get_pauli_group')
+        def f_group():
+            gs = list(G.get_pauli_group(n, kind='str'))
+            d = dict(G.get_pauli_group(n, kind='str_to_index'))
+            arr = np.asarray(G.get_pauli_group(n, kind='numpy'))
+            bad = []
+            if len(gs) != 4 ** n or len(d) != 4 ** n or arr.shape != (4 ** n, 2 ** n, 2 ** n):
+                return [f'sizes {len(gs)}, {len(d)}, {arr.shape}']
+            for i in range(4 ** n):
+                s1 = letters_of(i)
+                if gs[i] != G.pauli_index_to_str(i, n) or gs[i] != s1:
+                    bad.append(f"'str'[{i}] = {gs[i]} (index {i} is {s1})")
+                if d.get(s1) != i or int(G.pauli_str_to_index(s1)) != d.get(s1):
+                    bad.append(f"'str_to_index'[{s1}] = {d.get(s1)}")
+                if not np.array_equal(arr[i], kron_of(s1)) or not np.array_equal(arr[i], P.from_index(i, n).full_matrix):
+                    bad.append(f"'numpy'[{i}] is not the matrix of {s1}")
+            return bad[:4]
+        r = guarded(f_group)
+        if r != []:
+            ctx.fail('get_pauli_group', f'get_pauli_group({n}) does not enumerate every index once in index order: {r}', rp)
+        else:
+            ctx.probe_ok(('group', n))
+
+
 def single_roundtrip(ctx, G, n, i1):
     rp = dict(op='single-index-roundtrip', n=n, index=int(i1))
     def f():
@@ -523,8 +631,24 @@ def batched_roundtrip(ctx, G, n, idx, strs):
 def search(ctx, hints):
     # replay disagreeing conversion ops through the batched/single round-trip oracle
     import numqi as _nq
+    seen_group = set()
     for d in hints[:200]:
         t = d['op'].split(' ')
+        try:
+            if len(t) >= 4 and t[1] in ('pofindex', 'ofindexns') and 0 <= int(t[3]) < 4 ** int(t[2]):
+                wrapper_oracles(ctx, int(t[2]), idxs=[int(t[3])], group=False)
+            elif len(t) >= 4 and t[1] == 'pofstr':
+                wrapper_oracles(ctx, int(t[2]), idxs=[sum('IXYZ'.index(c) * 4 ** (len(t[3]) - 1 - j) for j, c in enumerate(t[3]))], group=False)
+            elif len(t) >= 4 and t[1] in ('pofF2', 'pstr') and len(t[3]) >= 4 and len(t[3]) % 2 == 0 and set(t[3]) <= set('01'):
+                wrapper_oracles(ctx, len(t[3]) // 2 - 1, idxs=[], f2s=[t[3]], group=False)
+            elif len(t) >= 4 and t[1] == 'toindexns':
+                n = int(t[2]); s0, _ = _nq.gate.pauli_F2_to_str(f2arr('00' + t[3]))
+                wrapper_oracles(ctx, n, idxs=[sum('IXYZ'.index(c) * 4 ** (n - 1 - j) for j, c in enumerate(s0))], group=False)
+            elif len(t) >= 4 and t[1] == 'pgroup' and int(t[2]) not in seen_group:
+                seen_group.add(int(t[2]))
+                wrapper_oracles(ctx, int(t[2]), idxs=[], group=True)
+        except Exception as e:  # noqa: BLE001
+            ctx.fail('implementation-raised', f'{type(e).__name__}: {e} while evaluating the wrapper oracles on {d["op"][:80]}', dict(op='wrapper-search', line=d['op']))
         if len(t) >= 4 and t[1] in ('ofindex', 'idx2str'):
             n, i1 = int(t[2]), int(t[3])
             s1 = _nq.gate.pauli_index_to_str(i1, n)
